@@ -1097,27 +1097,56 @@ def check_presentations(chk, fam, hist):
                                      {"part": "presentation", "family": fam, "history": [_ev_json(h) for h in hist],
                                       "policy_clamp": hsd, "query": q, "entry": entry, "value": x,
                                       "presentation": "*"}, observed=results[:6], expected="one value")
-            # mixed arrays: only the offending entries are clamped, in every array presentation
-            if hsd:
-                mix = np.array([d0 * 0.5, d0 * 3.0, d0 * 1e-3, d0 * 1e3])
-                refm = slope * np.log10(mix) + offset
-                wantm = np.where(refm < 0, 0.0, refm)
-                ro = mix.copy()
-                ro.flags.writeable = False
-                for label, pobj in (("list", mix.tolist()), ("read_only_array", ro), ("2d", mix.reshape(2, 2)),
-                                    ("non_contiguous_view", np.repeat(mix, 2)[::2]),
-                                    ("float32", mix.astype(np.float32))):
-                    r = _call(obj.calc_path_loss_dB, pobj, **q)
+            # mixed arrays (too-small and admissible entries side by side) in every memory layout x both policies
+            # x both entry points.  HARD (property statement): "distances too small for the model either raise
+            # or clamp to 0 dB according to the configured policy" - clamp: exactly the offending entries
+            mult = np.array([1e-3, 0.5, 3.0, 1e3, 0.2, 7.0, 40.0, 0.05, 90.0, 0.3, 5.0, 200.0])
+            M = (d0 * mult).reshape(3, 4)
+            big = np.full((6, 8), d0 * 11.0)
+            big[::2, ::2] = M
+            ro = M.ravel().copy()
+            ro.flags.writeable = False
+            layouts = [("1d_list", M.ravel().tolist()), ("1d_read_only", ro),
+                       ("1d_non_contiguous_view", np.repeat(M.ravel(), 2)[::2]),
+                       ("1d_float32", M.ravel().astype(np.float32)),
+                       ("2d_C", M.copy()), ("2d_F", np.asfortranarray(M)), ("2d_transposed_view", M.copy().T),
+                       ("2d_strided_view", big[::2, ::2]), ("2d_F_transposed_view", np.asfortranarray(M).T),
+                       ("3d_C", M.reshape(3, 2, 2).copy()), ("3d_swapaxes_view", np.swapaxes(M.reshape(3, 2, 2), 0, 2)),
+                       ("3d_F", np.asfortranarray(M.reshape(3, 2, 2)))]
+            for label, pobj in layouts:
+                vals = np.asarray(pobj, dtype=float)
+                refm = slope * np.log10(vals) + offset
+                below = refm < 0
+                for entry, f in (("calc_path_loss_dB", obj.calc_path_loss_dB), ("calc_path_loss", obj.calc_path_loss)):
+                    keep = pobj.tobytes() if isinstance(pobj, np.ndarray) else None
+                    r = _call(f, pobj, **q)
                     chk.count("eval_presentations")
+                    chk.outcome("layout_x_policy", (label, hsd, entry))
                     case = {"part": "presentation", "family": fam, "history": [_ev_json(h) for h in hist],
-                            "policy_clamp": True, "query": q, "entry": "calc_path_loss_dB", "value": "mixed",
+                            "policy_clamp": hsd, "query": q, "entry": entry, "value": "mixed",
                             "presentation": label}
-                    tol = cf_tol + (FLOAT_FORM_C * float(np.finfo(np.float32).eps) * FLOAT_FORM_DB_SCALE
-                                    if label == "float32" else 0.0)
-                    if r[0] != "a" or r[1].size != 4 or np.any(r[1].ravel()[[0, 2]] != 0.0) or \
-                            np.any(np.abs(r[1].ravel()[[1, 3]] - wantm[[1, 3]]) > tol):
+                    if keep is not None and pobj.tobytes() != keep:
+                        chk.fail((site, "presentation", "input_modified"), case, observed=label)
+                    if not hsd:
+                        if r[0] != "raise":
+                            chk.fail((site, "presentation", "small_distance_does_not_raise"), case,
+                                     observed="%s: %r" % (label, _short(r)), expected="an exception")
+                        continue
+                    wantm = np.where(below, 0.0, refm)
+                    eps = float(np.finfo(np.float32).eps) if label.endswith("float32") else 0.0
+                    if entry == "calc_path_loss_dB":
+                        tol = cf_tol + FLOAT_FORM_C * eps * FLOAT_FORM_DB_SCALE
+                    else:
+                        wantm = 10.0 ** (-wantm / 10.0)
+                        tol = wantm * (TOL_REL + 0.2303 * (cf_tol - TOL_DB) * 1.001
+                                       + FLOAT_FORM_C * eps * (1.0 + 0.2303 * FLOAT_FORM_DB_SCALE))
+                    clamp_to = 0.0 if entry == "calc_path_loss_dB" else 1.0
+                    if r[0] != "a" or r[1].shape != vals.shape:
                         chk.fail((site, "presentation", "mixed_array_clamp"), case,
-                                 observed="%s: %r" % (label, _short(r)), expected=wantm)
+                                 observed="%s: %r" % (label, _short(r)), expected="array of shape %r" % (vals.shape,))
+                    elif np.any(r[1][below] != clamp_to) or np.any(~(np.abs(r[1] - wantm) <= tol)[~below]):
+                        chk.fail((site, "presentation", "mixed_array_clamp"), case,
+                                 observed="%s: %r" % (label, r[1].ravel()[:6]), expected=wantm.ravel()[:6])
         if F["inverse"]:
             for p in (10.0, 100.0, 150.5):
                 res = []
@@ -1163,16 +1192,39 @@ Q_INITS = {
 }
 
 
+Q_SCALARS = {"adm_s": 35.0, "pl_s": 100.0, "pll_s": 1e-10}
+Q_METHOD = {"dB": "calc_path_loss_dB", "lin": "calc_path_loss", "inv": "which_distance_dB",
+            "invlin": "which_distance"}
+Q_CALC = [("dB", "mix"), ("lin", "mix"), ("dB", "adm"), ("lin", "adm"), ("dB", "adm_s"), ("lin", "adm_s")]
+Q_INV = [("inv", "pl"), ("invlin", "pll"), ("inv", "pl_s"), ("invlin", "pll_s")]
+
+
+def q_kinds(fam):
+    """every entry point in array and scalar form (the inverses where they are offered)"""
+    return Q_CALC + (Q_INV if FAMILIES[fam]["inverse"] else [])
+
+
 def q_alphabet(fam):
-    ev = [("query", k, a) for k in ("dB", "lin") for a in ("mix", "adm")]
+    ev = [("query", k, a) for k, a in q_kinds(fam)]
     ev.append(("query", "dB", "adm_list"))
-    if FAMILIES[fam]["inverse"]:
-        ev.append(("query", "inv", "pl"))
     ev.append(("mutate", "result"))
     ev += [("handle_small_distances_bool", True), ("handle_small_distances_bool", False)]
     ev += Q_SETTERS[fam]
     inits = [(("new", a + (("hsd0", h),)),) for a in Q_INITS[fam] for h in (False, True)]
     return inits, ev
+
+
+def q_values(arr):
+    """the numbers a query stands for: distances, or losses in dB for the inverse queries"""
+    if arr in ("adm_list",):
+        return Q_ARRAYS["adm"]
+    if arr in ("pl", "pll"):
+        return Q_ARRAYS["pl"]
+    if arr == "adm_s":
+        return (Q_SCALARS["adm_s"],)
+    if arr in ("pl_s", "pll_s"):
+        return (Q_SCALARS["pl_s"],)
+    return Q_ARRAYS[arr]
 
 
 class QState:
@@ -1192,7 +1244,7 @@ def q_expected(fam, model, hsd, kind, values):
     F = FAMILIES[fam]
     slope, offset = F["line"](model, F["queries"][0])
     v = np.asarray(values, dtype=float)
-    if kind == "inv":
+    if kind in ("inv", "invlin"):
         return ("a", 10.0 ** ((v - offset) / slope), np.ones(v.shape, bool))
     ref = slope * np.log10(v) + offset
     small = ref < -ZERO_MARGIN_DB
@@ -1210,14 +1262,30 @@ def q_do(st, kind, arr):
     obj = st.obj
     if arr == "adm_list":
         x = list(Q_ARRAYS["adm"])
+    elif arr in Q_SCALARS:
+        x = Q_SCALARS[arr]
     else:
         x = st.arrays[arr]
-    f = {"dB": obj.calc_path_loss_dB, "lin": obj.calc_path_loss, "inv": obj.which_distance_dB}[kind]
+    f = getattr(obj, Q_METHOD[kind])
     try:
         r = f(x)
     except Exception as e:  # noqa
         return ("raise", type(e).__name__), None, x
     return None, r, x
+
+
+def q_result(tag, r):
+    """(tag, values) of a query result; a scalar answer is a 1-element array of values"""
+    if tag is not None:
+        return tag
+    if r is None:
+        return ("none",)
+    if _arraylike(r):
+        return ("a", np.array(r, dtype=float, copy=True))
+    try:
+        return ("a", np.array([float(r)]))
+    except Exception:  # noqa
+        return ("other", type(r).__name__)
 
 
 def _arraylike(r):
@@ -1242,6 +1310,7 @@ def build_q(fam, hist):
     m.update((k, v) for k, v in args.items() if k != "default")
     st.model = m
     st.arrays = {k: np.array(v, dtype=float) for k, v in Q_ARRAYS.items()}
+    st.arrays["pll"] = 10.0 ** (-st.arrays["pl"] / 10.0)
     st.bytes = {k: a.tobytes() for k, a in st.arrays.items()}
     for ev in hist[1:]:
         st.last = None
@@ -1249,12 +1318,10 @@ def build_q(fam, hist):
             _, kind, arr = ev
             tag, r, x = q_do(st, kind, arr)
             rec = dict(kind=kind, arr=arr, hsd=st.hsd, model=dict(m))
+            rec["result"] = q_result(tag, r)
             if tag is not None:
-                rec["result"] = tag
                 st.last_result = None
             else:
-                rec["result"] = ("a", np.array(r, dtype=float, copy=True)) if _arraylike(r) \
-                    else (("none",) if r is None else ("other", type(r).__name__))
                 rec["aliases_input"] = isinstance(r, np.ndarray) and isinstance(x, np.ndarray) \
                     and bool(np.shares_memory(r, x))
                 st.last_result = r if isinstance(r, np.ndarray) else None
@@ -1305,17 +1372,16 @@ def check_query_state(chk, fam, hist, st):
     F = FAMILIES[fam]
     case = {"part": "query", "family": fam, "history": [_ev_json(h) for h in hist]}
     chk.count("eval_query_states")
+    if len(hist) >= 3:
+        chk.nontriv((fam, "query") + tuple(hist[1:]))
     cf_tol = F["cf_tol"](st.model)
     # ---- the last event, if it is a query ----
     rec = st.last
     if rec is not None:
         chk.count("eval_query_events")
         what = "query_%s" % rec["arr"]
-        vals = Q_ARRAYS["adm" if rec["arr"] == "adm_list" else rec["arr"]]
-        exp = q_expected(fam, rec["model"], rec["hsd"], rec["kind"], vals)
+        exp = q_expected(fam, rec["model"], rec["hsd"], rec["kind"], q_values(rec["arr"]))
         chk.outcome("query_outcome", (fam, rec["kind"], rec["arr"], rec["hsd"], exp[0]))
-        if len(hist) >= 3:
-            chk.nontriv((fam, "query") + tuple(hist[1:]))
         if not rec["inputs_intact"]:
             chk.fail((SITE[fam], "query_history", "input_array_not_bit_identical_after_call"), case, observed=what)
         if rec.get("aliases_input"):
@@ -1324,17 +1390,15 @@ def check_query_state(chk, fam, hist, st):
     # ---- observation after the history, same array objects, against closed form and a fresh object ----
     fresh = F["fresh"](st.model)
     fresh.handle_small_distances_bool = st.hsd
-    kinds = [("dB", "mix"), ("lin", "mix"), ("dB", "adm"), ("lin", "adm")]
-    if F["inverse"]:
-        kinds.append(("inv", "pl"))
-    for kind, arr in kinds:
-        tag, r, _ = q_do(st, kind, arr)
-        got = tag if tag is not None else (("a", np.array(r, dtype=float, copy=True))
-                                           if _arraylike(r) else ("other", type(r).__name__))
-        exp = q_expected(fam, st.model, st.hsd, kind, Q_ARRAYS[arr])
+    for kind, arr in q_kinds(fam):
+        tag, r, x = q_do(st, kind, arr)
+        got = q_result(tag, r)
+        exp = q_expected(fam, st.model, st.hsd, kind, q_values(arr))
         _cmp_query(chk, fam, case, "observation_after_history_%s" % arr, kind, got, exp, cf_tol)
-        ff = {"dB": fresh.calc_path_loss_dB, "lin": fresh.calc_path_loss, "inv": fresh.which_distance_dB}[kind]
-        gf = _call(ff, np.array(Q_ARRAYS[arr], dtype=float))
+        try:
+            gf = q_result(None, getattr(fresh, Q_METHOD[kind])(np.array(x, dtype=float) if np.ndim(x) else x))
+        except Exception as e:  # noqa
+            gf = ("raise", type(e).__name__)
         chk.count("eval_differential")
         if not _same(got, gf, 1e-12):
             chk.fail((SITE[fam], "query_history", "differs_from_fresh_object"), case,
@@ -1362,7 +1426,12 @@ def run_query_family(chk, fam, depth):
         return build_q(fam, hist)
 
     def enabled(hist, st):
-        return [e for e in evs if e[0] != "mutate" or st.last_result is not None]
+        ok = [e for e in evs if e[0] != "mutate" or st.last_result is not None]
+        if len(hist) - 1 >= depth - 1:
+            # last level: the observation after the history already queries every entry point, so only the
+            # events that change something (setters, policy, caller scribbling) are worth a node of their own
+            ok = [e for e in ok if e[0] != "query"]
+        return ok
 
     def invariant(hist, st):
         case = {"part": "query", "family": fam, "history": [_ev_json(h) for h in hist]}
@@ -1441,6 +1510,15 @@ def main(chk: Check):
     chk.extra["tolerances"] = {"TOL_DB": TOL_DB, "TOL_REL": TOL_REL, "FRIIS_DB_PER_N": FRIIS_DB_PER_N,
                                "ZERO_MARGIN_DB": ZERO_MARGIN_DB}
     chk.extra["depth"] = jobs[0][2]
+    chk.extra["pairwise_axes"] = {
+        "memory layout x small-distance policy x entry point": "12 layouts (list, read-only, 1-D view, float32, 2-D C / F "
+        "/ transposed / strided / F-transposed, 3-D C / swapaxes / F) x {raise, clamp} x {dB, linear}, mixed arrays, "
+        "every model (presentation part)",
+        "presentation of one value x threshold zone x policy": "14 presentations x below/at/above x both policies",
+        "query entry point x setter": "query BFS: every (query, setter) pair as query -> setter -> observation of every "
+        "entry point (calc_path_loss[_dB], which_distance[_dB], array and scalar forms)",
+        "distance shape x num_walls shape": "16 broadcast-compatible pairs (METIS)",
+        "dtype x entry point": "numeric forms part"}
 
     def worker(i, n, c):
         for j in range(i, len(jobs), n):
@@ -1484,6 +1562,7 @@ def main(chk: Check):
         chk.require_outcomes("numeric_form", 100)
         chk.require_outcomes("presentation", 200)
         chk.require_outcomes("wall_broadcast", 30)
+        chk.require_outcomes("layout_x_policy", 40)
         chk.require_outcomes("query_outcome", 30)
 
 
